@@ -32,6 +32,9 @@ def positions(rng, nc, geometry):
     if geometry == 'stagger':         # Neuropixels-like staggered columns
         cells = [(x, y) for y in range(0, 10) for x in ((0, 2) if y % 2 == 0 else (1, 3))]
         return [[float(x * 16 + 11), float(y * 20)] for x, y in rng.sample(cells, nc)]
+    if geometry == 'long':            # a shank several millimetres long: within-probe distances exceed any finite penalty
+        cells = [(x, y) for x in range(0, 2) for y in range(0, 12)]
+        return [[float(x * 16), float(y * 400)] for x, y in rng.sample(cells, nc)]
     cells = [(x, y) for x in range(0, 3) for y in range(0, 9)]
     return [[float(x * 16), float(y * 20)] for x, y in rng.sample(cells, nc)]
 
@@ -62,7 +65,7 @@ def gen_probe_sem(rng, **o):
     sem = G.gen(rng, nc=nc, **{k: v for k, v in o.items() if k in (
         'nt', 'nsw', 'nspk', 'curated', 'empty', 'wmi', 'div', 'features', 'vanish', 'rate', 'tamp', 'ties',
         'zero_template', 'neg_amp')}, probes=False, shanks=o.get('shanks', False))
-    sem['positions'] = positions(rng, nc, o.get('geometry', rng.choice(['grid', 'grid', 'column', 'square', 'stagger'])))
+    sem['positions'] = positions(rng, nc, o.get('geometry', rng.choice(['grid', 'grid', 'column', 'square', 'stagger', 'long'])))
     extra = o.get('extra', rng.choice([0, 0, 1, 3]))
     cm = rng.sample(range(nc + extra), nc)
     if o.get('sorted_cm', rng.random() < 0.25):
@@ -123,9 +126,10 @@ def gen_merged(rng, k=None, ncs=None, **o):
         # the highest template of every probe has a spike: the Merger numbers merged templates by max(id) + 1 per
         # probe but stacks templates.npy by template count (C11/C12's business), and the two must agree here
         po.setdefault('empty', rng.choice(['none', 'none', 'start', 'middle']))
+        nt_k = po.pop('nt', rng.randint(2, 3))          # at least as many spikes as templates, so that the highest is used
         sem = gen_probe_sem(rng, nc=nc, nsw=nsw, rate=rate, wmi=w, features='none',
                             curated=(rng.random() < 0.3) if curated is None else curated,
-                            nt=po.pop('nt', rng.randint(2, 3)), nspk=po.pop('nspk', rng.randint(2, 7)), **po)
+                            nt=nt_k, nspk=max(nt_k, po.pop('nspk', rng.randint(2, 7))), **po)
         nt, nspk = sem['n_templates'], sem['n_spikes']
         # files the Merger reads unconditionally: pc_feature_ind / template_feature_ind (with any feature data)
         sem['features'] = {'data': [[[1.0, 0.0], [0.0, 1.0]]] * nspk, 'ind': [rng.sample(range(nc), 2) for _ in range(nt)],
